@@ -192,9 +192,9 @@ RoundTrip ==
 (* its prefixes; with one switch on it tells which deviation a difference is owed to.                         *)
 
 LopdfDevs == {"needsprev", "afterprev", "newestonly", "freeignored"}
-\* the deviations of the tree under test (all four on the pinned tree; a repaired loader has fewer - the candidate
-\* repairs proposed_fixes/beyond-C02-*.diff remove the first three and the last one respectively)
-LopdfAsIs == LopdfDevs
+\* the deviations of the tree under test: all four on the pinned tree; the first three were repaired by /repo e756b84
+\* (hybrid-reference histories are inside C07's statement and are judged there); free entries are still ignored
+LopdfAsIs == {"freeignored"}
 OnlyFreeIgnored == {"freeignored"}
 
 PlainNumsOf(r) == {Doc.revs[r].objs[i].num : i \in 1..Len(Doc.revs[r].objs)}
@@ -278,7 +278,7 @@ ImplRefines ==
 PredictionJson(j) ==
     LET p == Prediction(j, LopdfAsIs)
     IN [missing |-> SortedSet(p.missing), stale |-> SortedSet(p.stale), extra |-> SortedSet(p.extra), maybe |-> SortedSet(p.maybe),
-        owedto |-> {d \in LopdfDevs : ~NoDifference(Prediction(j, {d}))},
+        owedto |-> {d \in LopdfAsIs : ~NoDifference(Prediction(j, {d}))},
         deleted |-> SortedSet(DeletedUpTo(Doc.revs, j)), hidden |-> SortedSet(HiddenUpTo(j))]
 
 EmitInv ==
